@@ -41,18 +41,30 @@ Theorem c02_xsw_free :
 Proof. exact xsw_free_as_coded. Qed.
 Print Assumptions c02_xsw_free.
 
-(* (round 5) "... are exactly those of AN element covered by a valid signature": ONE covered element accounts for
-   everything that is reported.  For every engine, document, policy that requires a signature, oracle and
-   cryptography: if the Response itself carries a signature (it is then verified and is that element), or exactly one
-   assertion feeds the report (mix_guard), there is one digested element - certificate bound by metadata to its own
-   Issuer - inside which every reported field is found.  The complement of mix_guard is finding C02-F4. *)
+(* (round 5; unguarded since 6a3bb24f) "... are exactly those of AN element covered by a valid signature": ONE covered
+   element accounts for everything that is reported.  For every engine, document, policy that requires a signature,
+   oracle and cryptography: if the acceptance path as coded produces an identity there is one digested element -
+   certificate bound by metadata to its own Issuer - inside which every reported field is found: the Response when it
+   carries a signature (it is then verified), else the one assertion that was processed (parse_assertion refuses more
+   than one processed assertion under an unsigned Response).  dec_count: the round trip through str(response) that
+   precedes the verification of decrypted assertions loses no plain assertion (checked on every correspondence case). *)
 Theorem c02_single_element :
   forall E dig_ok sig_ok c o doc ddoc rep ds,
-    sig_required c -> oracle_sane o doc ddoc -> dec_sound doc ddoc -> mix_guard doc ddoc ->
+    sig_required c -> oracle_sane o doc ddoc -> dec_sound doc ddoc -> dec_count doc ddoc ->
     accept dig_ok sig_ok E as_coded c o doc ddoc = Some (rep, ds) ->
     spec_one c (cov_of doc ddoc ds) rep.
 Proof. exact single_as_coded. Qed.
 Print Assumptions c02_single_element.
+
+(* the code before 6a3bb24f (knobs_v2) satisfied this only under mix_guard: the Response itself carries a signature, or
+   exactly one assertion feeds the report *)
+Theorem c02_v2_single_element :
+  forall E dig_ok sig_ok c o doc ddoc rep ds,
+    sig_required c -> oracle_sane o doc ddoc -> dec_sound doc ddoc -> mix_guard doc ddoc ->
+    accept dig_ok sig_ok E knobs_v2 c o doc ddoc = Some (rep, ds) ->
+    spec_one c (cov_of doc ddoc ds) rep.
+Proof. exact single_v2. Qed.
+Print Assumptions c02_v2_single_element.
 
 (* no guard is needed for a Response without EncryptedAssertion children: parse_assertion's count test ("exactly one
    plain Assertion child OR exactly one EncryptedAssertion child") then leaves exactly one assertion *)
@@ -65,12 +77,13 @@ Theorem c02_single_element_plain :
 Proof. exact single_plain_as_coded. Qed.
 Print Assumptions c02_single_element_plain.
 
-(* C02-F4 (open): the count test is an OR.  Two genuinely signed assertions (alice, bob) in an unsigned envelope are
-   refused (doc_two) - but accepted as soon as the Response also has exactly one EncryptedAssertion child, be it an
-   empty element (doc_mix) or a real ciphertext (doc_mix_enc: one plain, one encrypted).  The report then names bob
-   (subject of the last assertion) with the session of alice (resp. attributes of alice): each field is signed content
-   (spec holds), no single covered element carries the combination (spec_one fails).  Outside mix_guard. *)
-Theorem c02_mixture_refuted :
+(* C02-F4 (fixed: 6a3bb24f): the count test at the head of parse_assertion is an OR.  Before the repair two genuinely
+   signed assertions (alice, bob) in an unsigned envelope were refused (doc_two) - but accepted as soon as the Response
+   also had exactly one EncryptedAssertion child, be it an empty element (doc_mix) or a real ciphertext (doc_mix_enc: one
+   plain, one encrypted).  The report then named bob (subject of the last assertion) with the session of alice (resp.
+   attributes of alice): each field is signed content (spec holds), no single covered element carries the combination
+   (spec_one fails).  Outside mix_guard.  Ex.run2 = the code before 6a3bb24f (knobs_v2). *)
+Theorem c02_mixture_v0_refuted :
   Ex.mixed Ex.cfgA Ex.doc_mix None = Some (true, false, Some "bob"%string, Some "s-alice"%string)
   /\ Ex.mixed Ex.cfgA Ex.doc_mix_enc (Some Ex.ddoc_mix_enc) = Some (true, false, Some "bob"%string, Some "s-bob"%string)
   /\ (exists rep ds, Ex.run2 Ex.cfgA Ex.doc_mix None = Some (rep, ds)
@@ -79,8 +92,16 @@ Theorem c02_mixture_refuted :
                      /\ ~ spec_one Ex.cfgA (cov_of Ex.doc_mix None ds) rep)
   /\ ~ mix_guard Ex.doc_mix None /\ ~ mix_guard Ex.doc_mix_enc (Some Ex.ddoc_mix_enc)
   /\ Ex.run2 Ex.cfgA Ex.doc_two None = None.
-Proof. exact f4_refuted. Qed.
-Print Assumptions c02_mixture_refuted.
+Proof. exact f4_v2_refuted. Qed.
+Print Assumptions c02_mixture_v0_refuted.
+
+(* the code as it is refuses both witnesses and still accepts the single genuine assertion *)
+Theorem c02_mixture_now_rejected :
+  Ex.run2_now Ex.cfgA Ex.doc_mix None = None
+  /\ Ex.run2_now Ex.cfgA Ex.doc_mix_enc (Some Ex.ddoc_mix_enc) = None
+  /\ Ex.names (Ex.run2_now Ex.cfgA Ex.doc_one None) = Some (Some ("alice"%string, None)).
+Proof. exact f4_now_rejected. Qed.
+Print Assumptions c02_mixture_now_rejected.
 
 (* the behaviour before 32211c52 (knobs_v1: the uniqueness test saw namespace-qualified elements only) satisfied the
    property for the lenient engines only under engine_guard (trivially true for an engine strict about duplicate IDs) ... *)
@@ -245,7 +266,7 @@ Theorem c02_live_constants :
   /\ live_allowed_canonicalizations = ALLOWED_CANONICALIZATIONS
   /\ live_transform_enveloped = TRANSFORM_ENVELOPED
   /\ live_node_name = "urn:oasis:names:tc:SAML:2.0:assertion:Assertion"%string.
-Proof. repeat split; reflexivity. Qed.
+Proof. exact live_constants. Qed.
 Print Assumptions c02_live_constants.
 
 (* ================================================================== source tie, translator v2 *)
@@ -364,3 +385,15 @@ Theorem c02_source2_count :
     /\ src2_count (enc_self_count "AuthnQuery" doc PNone) = PNone.
 Proof. exact src2_count_is_model. Qed.
 Print Assumptions c02_source2_count.
+
+(* response.AuthnResponse.parse_assertion, the test added by 6a3bb24f (cut out of the live text): lets the Response through
+   exactly when Model.one_fed holds - the Response carries a signature or at most one assertion was processed *)
+Theorem c02_source2_one :
+  forall (ctx : string) (doc : tree) (fed : list tree),
+    (String.eqb ctx "AuthnQuery" = false ->
+     src2_one (enc_self_one ctx fed (single SIGNATURE doc))
+     = if one_fed as_coded (match single SIGNATURE doc with Some _ => true | None => false end) fed
+       then PNone else PExc "InvalidAssertion")
+    /\ src2_one (enc_self_one "AuthnQuery" fed (single SIGNATURE doc)) = PNone.
+Proof. exact src2_one_is_model. Qed.
+Print Assumptions c02_source2_one.
